@@ -226,6 +226,8 @@ def fresh_oracle(h, rec):
       sig = STALE_LOOKUP_SIG
     elif __import__("gx.hist_run", fromlist=["x"]).empty_table_key_change_only(doc, d, rec["actions"]):
       sig = __import__("gx.hist_run", fromlist=["x"]).EMPTY_KEY_CHANGE_SIG % "fresh"
+    elif __import__("gx.hist_run", fromlist=["x"]).empty_table_key_change_only(doc, d, rec["actions"], type_error=True):
+      sig = __import__("gx.hist_run", fromlist=["x"]).UNHASHABLE_KEY_NO_DEP_SIG % "fresh"
     h._find(PROP, sig, "; ".join(d[:3]) + " (first=incremental, second=fresh)", rec)
     h._c05_dead = True      # the live engine is known to have diverged: stop judging this history
   # non-trivial: some formula cell changed through a dependency in this bundle
